@@ -1467,9 +1467,6 @@ class ArrayToBlocks(Linop):
     def _adjoint_linop(self):
         return BlocksToArray(self.ishape, self.blk_shape, self.blk_strides)
 
-    def _normal_linop(self):
-        return Identity(self.ishape)
-
 
 class BlocksToArray(Linop):
     """Accumulate blocks into an array in a sliding window manner.
@@ -1505,9 +1502,6 @@ class BlocksToArray(Linop):
 
     def _adjoint_linop(self):
         return ArrayToBlocks(self.oshape, self.blk_shape, self.blk_strides)
-
-    def _normal_linop(self):
-        return Identity(self.ishape)
 
 
 def Gradient(ishape, axes=None):
